@@ -608,7 +608,8 @@ fn gen_build(r: &mut Rng, w: &mut dyn Write, hdr: &mut dyn FnMut(&mut dyn Write,
             let n = match r.below(12) {
                 0 => 0usize,
                 1 if !wide && i % 3 == 0 => 255,
-                // known suspect: 256 commands with one-octet indices overflow the u8 count of the header
+                // 256 commands with one-octet indices: more than the u8 count of the header can express (a clean
+                // write error since the repair of D17; before it the count overflowed)
                 2 if !wide && size <= 5 => 256,
                 _ => r.range(1, 6) as usize,
             };
@@ -887,7 +888,8 @@ pub fn run(ops: &str, out: &mut dyn Write, mon: &mut dyn Write) {
                         Err(_) => {
                             writeln!(out, "panic").unwrap();
                             stats.hit("build_panic");
-                            // cause predicate of D17: a count-and-prefix header with one-octet count asked to carry > 255 items
+                            // cause predicate of D17 (repaired; the tag stays so that a returning defect is named): a
+                            // count-and-prefix header with one-octet count asked to carry > 255 items
                             let d16 = toks.iter().any(|t| t.starts_with("cmd8:") && {
                                 let p: Vec<&str> = t.split(':').collect();
                                 let size = ref_size(p[1].parse().unwrap(), p[2].parse().unwrap()).unwrap_or(0);
@@ -898,11 +900,37 @@ pub fn run(ops: &str, out: &mut dyn Write, mon: &mut dyn Write) {
                         Ok(Err(e)) => {
                             writeln!(out, "{e}").unwrap();
                             stats.hit(&format!("build_{e}"));
-                            if e == "badwrite" && cap >= 2048 {
-                                // nothing the generator asks for exceeds 2048 octets except 256+ commands
-                                let big = toks.iter().any(|t| t.len() > 1500);
-                                if !big {
-                                    writeln!(mon, "MONITOR-FAIL {hdr} :: builder_writes_what_fits :: {line}").unwrap();
+                            if e == "badwrite" {
+                                // a write error must have a reason (reference sizes, IEEE 1815 header layouts): the request does
+                                // not fit the buffer, or a count-and-prefix header is asked to carry more items than its count
+                                // can express (256+ commands under a one-octet count: clean failure since the repair of D17)
+                                let mut total = 2usize;
+                                let mut inexpressible = false;
+                                for t in toks.iter() {
+                                    let p: Vec<&str> = t.split(':').collect();
+                                    total += match p[0] {
+                                        "all" => 3,
+                                        "r8" => 5,
+                                        "r16" => 7,
+                                        "c8" => 4,
+                                        "c16" => 5,
+                                        "cr" => 6,
+                                        "one" => 4 + unhex(p[3]).len(),
+                                        "cmd8" | "cmd16" => {
+                                            let isz = if p[0] == "cmd16" { 2 } else { 1 };
+                                            let size = ref_size(p[1].parse().unwrap(), p[2].parse().unwrap()).unwrap_or(0);
+                                            let raw = unhex(p[3]).len();
+                                            let n = raw / (isz + size);
+                                            if n > (if isz == 2 { 65535 } else { 255 }) {
+                                                inexpressible = true;
+                                            }
+                                            if n == 0 { 0 } else { 3 + isz + raw }
+                                        }
+                                        _ => 0,
+                                    };
+                                }
+                                if total <= cap && !inexpressible {
+                                    writeln!(mon, "MONITOR-FAIL {hdr} :: builder_writes_what_fits :: {} octets fit {cap}: {}", total, &line[..line.len().min(120)]).unwrap();
                                 }
                             }
                         }
